@@ -8,7 +8,16 @@ import (
 
 // Parse parses one statement. Syntax ClickHouse rejects yields *RaiseError{Rule:"SYNTAX_ERROR"};
 // valid ClickHouse syntax outside the subset yields an error wrapping ErrUnsupported.
-func Parse(sql string) (*Statement, error) {
+func Parse(sql string) (st *Statement, err error) {
+	defer func() {
+		if r := recover(); r != nil {
+			st, err = nil, unsupported("internal parser error: %v", r)
+		}
+	}()
+	return parse(sql)
+}
+
+func parse(sql string) (*Statement, error) {
 	toks, err := lex(sql)
 	if err != nil {
 		return nil, err
